@@ -37,7 +37,8 @@ CHECKS["C16"] = dict(
          "before its first action and a call that ends in a fatal report sends none; the OK text is the "
          "selected expectation's own name field; only set_reporter writes the reporter objects and it returns "
          "the exchanged value. Holds for all histories because the CFG does not depend on the history. " 
-         "The reporter and OK-reporter objects handed out by their accessors have static storage duration and are not thread_local (one installed reporter per process).",
+         "The reporter and OK-reporter objects handed out by their accessors have static storage duration and are not thread_local (one installed reporter per process). "
+         "set_reporter is also decided at the C++11 language level (the library's own exchange): what is assigned to is the reporter object itself, not a copy.",
     design_ref="DESIGN.md section 4, C16",
     note="Not decided: what an installed reporter does with the text.")
 
@@ -51,7 +52,8 @@ CHECKS["C12"] = dict(
          "destructor tails are accepted only below a locked detach of the same sub-object; there is exactly one "
          "synchronisation object; each listed operation is one critical section. Because the argument is per "
          "thread and per path, it covers every schedule and any number of threads, which no stress run can. "
-         "What get_lock() locks has static storage duration and is not thread_local.",
+         "What get_lock() locks has static storage duration and is not thread_local. "
+         "Whether a member may be read without the lock because it is atomic is decided by its declared type.",
     design_ref="DESIGN.md section 4, C12",
     note="Exemptions (named, with reasons, in rules/C12.py): sequence-object destruction, mock move, "
          "set_sequence's copy of the never-registered old handler, TIMES before IN_SEQUENCE. Not decided: "
@@ -80,7 +82,8 @@ CHECKS["C05"] = dict(
          "predecessors on every accepted path, and a path ending in a fatal report has changed no state; registration "
          "appends under the lock; validate_match reports iff not first in line with the caller's severity. "
          "The whole step protocol of the accept path is a premise of this property and is decided by this check too: forbidden test first and unconditional, sequence check before the count, exactly one count, saturation test after the count, the expectation has left its list and its sequences before any user code runs. "
-         "validate() asks every named sequence, unconditionally.",
+         "validate() asks every named sequence, unconditionally. "
+         "retire_predecessors reaches the handle of every named sequence, whatever its cost.",
     design_ref="DESIGN.md section 4, C05",
     note="The step tables lift to the loops' results, and these to all histories, by the induction written in DESIGN.md "
          "(not machine-checked).")
@@ -92,7 +95,8 @@ CHECKS["C04"] = dict(
          "and is sent exactly once, non-fatally, with location, name, expected values, required and actual counts; "
          "only the two lifetime ends may emit it; mock destruction visits every expectation (report, then unlink). "
          "reported and unlinked are absorbing, hence at most one end-of-life report per expectation over every history. "
-         "The whole step protocol of the accept path is a premise of this property and is decided by this check too: forbidden test first and unconditional, sequence check before the count, exactly one count, saturation test after the count, the expectation has left its list and its sequences before any user code runs.",
+         "The whole step protocol of the accept path is a premise of this property and is decided by this check too: forbidden test first and unconditional, sequence check before the count, exactly one count, saturation test after the count, the expectation has left its list and its sequences before any user code runs. "
+         "The ALLOW_CALL / FORBID_CALL macro families (C++14 and _V spellings, NAMED and unnamed, with and without modifiers) are token-equal to REQUIRE_CALL with TIMES(0, unbounded) / TIMES(0).",
     design_ref="DESIGN.md section 4, C04", note="Not decided: message wording.")
 CHECKS["C08"] = dict(
     technique="typestate automata over the dispatch function and over every function that evaluates WITH clauses "
@@ -103,7 +107,8 @@ CHECKS["C08"] = dict(
          "over the whole list, and once the call has been counted no path leaves run_actions without passing the "
          "side-effect loop; in every function that evaluates WITH clauses no clause is evaluated after one has "
          "failed; reference returns keep object identity by type. "
-         "The whole step protocol of the accept path is a premise of this property and is decided by this check too: forbidden test first and unconditional, sequence check before the count, exactly one count, saturation test after the count, the expectation has left its list and its sequences before any user code runs.",
+         "The whole step protocol of the accept path is a premise of this property and is decided by this check too: forbidden test first and unconditional, sequence check before the count, exactly one count, saturation test after the count, the expectation has left its list and its sequences before any user code runs. "
+         "In every library function the dispatch function's exception handlers call, each deliberate raise (throw;, the standard rethrow helpers) lies lexically inside a try block with a catch-all, so recording an exception cannot replace it on its way to the caller.",
     design_ref="DESIGN.md section 4, C08", note="Not decided: what the user's expressions compute.")
 
 CHECKS["C01"] = dict(
@@ -117,7 +122,8 @@ CHECKS["C01"] = dict(
          "all WITH conditions (decided on matches() whether the WITH loop lives in a helper or in matches() itself); "
          "expired expectations are unlinked on every path; every TIMES / RT_TIMES form sets the limits it says "
          "(every arity of the multiplicity constructors, default arguments included). "
-         "The whole step protocol of the accept path is a premise of this property and is decided by this check too: forbidden test first and unconditional, sequence check before the count, exactly one count, saturation test after the count, the expectation has left its list and its sequences before any user code runs.",
+         "The whole step protocol of the accept path is a premise of this property and is decided by this check too: forbidden test first and unconditional, sequence check before the count, exactly one count, saturation test after the count, the expectation has left its list and its sequences before any user code runs. "
+         "The list order (newest first) survives the move of a movable mock: the list's move constructor is interpreted over every canonical ring shape (C14.g).",
     design_ref="DESIGN.md section 4, C01",
     note="The 'iff' composes C02 (which candidate), C05 (sequence permission), C07 (forbidden); the lifting from "
          "'per call' to 'every history' is the list invariant written in DESIGN.md.")
@@ -129,7 +135,8 @@ CHECKS["C02"] = dict(
          "their tag selects; each generated mock function dispatches on the member whose active list its tag "
          "returns and forwards its parameters in order (every MAKE_MOCK in the analysed units); signatures are "
          "isolated by type; cost/order tables are those of C05; the list primitives and the move of a whole list keep "
-         "the element order (SHAPE).",
+         "the element order (SHAPE). "
+         "The step protocol of both sequence-step consumers (a matched call, a watched destruction) is decided by this check too: what a step that happened leaves pending is what later candidates are charged.",
     design_ref="DESIGN.md section 4, C02",
     note="Global optimality of the selection is the loop invariant written in DESIGN.md over the checked step.")
 CHECKS["C03"] = dict(
@@ -141,7 +148,8 @@ CHECKS["C03"] = dict(
          "an accepted call is counted exactly once and on saturation retires, unlinks and is appended to the "
          "saturated list; RT_TIMES throws std::logic_error exactly when high<low, before any effect. "
          "The whole step protocol of the accept path is a premise of this property and is decided by this check too: forbidden test first and unconditional, sequence check before the count, exactly one count, saturation test after the count, the expectation has left its list and its sequences before any user code runs. "
-         "The predicate tables (is_satisfied, is_saturated, is_forbidden) hold for the base implementation and for every override.",
+         "The predicate tables (is_satisfied, is_saturated, is_forbidden) hold for the base implementation and for every override. "
+         "IN_SEQUENCE keeps the limits: the creation site of the replacement handler and the constructor it calls (base constructors and helpers followed) are interpreted with an old handler of (min 5, max 7) and must store exactly these.",
     design_ref="DESIGN.md section 4, C03", note="count<=max is an invariant from C03.d, used as don't-care rows.")
 CHECKS["C06"] = dict(
     technique="decision table of the is_completed step (TABLE, loop-idiom independent), interpretation of the sequence "
@@ -152,7 +160,8 @@ CHECKS["C06"] = dict(
          "exactly one non-fatal report after the last one iff the list was not empty; both step consumers leave their "
          "sequences on saturation, test saturation only after the call / destruction has been counted, and retire "
          "predecessors only together with counting; a released node unlinks on every path. "
-         "The whole step protocol of the accept path is a premise of this property and is decided by this check too: forbidden test first and unconditional, sequence check before the count, exactly one count, saturation test after the count, the expectation has left its list and its sequences before any user code runs.",
+         "The whole step protocol of the accept path is a premise of this property and is decided by this check too: forbidden test first and unconditional, sequence check before the count, exactly one count, saturation test after the count, the expectation has left its list and its sequences before any user code runs. "
+         "The teardown of one sequence takes the pending expectations out of that sequence only (a handler-level retire there is reported).",
     design_ref="DESIGN.md section 4, C06", note="The query's lock is C12.")
 CHECKS["C07"] = dict(
     technique="preprocessor token equality of the FORBID macro family, protocol automaton, constant evaluation of "
@@ -162,7 +171,8 @@ CHECKS["C07"] = dict(
          "change, so the expectation stays active and each later matching call takes the same path; at (0,0,0) it is "
          "satisfied and saturated; actions and IN_SEQUENCE on it do not compile. "
          "The whole step protocol of the accept path is a premise of this property and is decided by this check too: forbidden test first and unconditional, sequence check before the count, exactly one count, saturation test after the count, the expectation has left its list and its sequences before any user code runs. "
-         "The predicate tables (is_satisfied, is_saturated, is_forbidden) hold for the base implementation and for every override.",
+         "The predicate tables (is_satisfied, is_saturated, is_forbidden) hold for the base implementation and for every override. "
+         "The list order (newest first) survives the move of a movable mock: the list's move constructor is interpreted over every canonical ring shape (C14.g).",
     design_ref="DESIGN.md section 4, C07", note="Which calls it is the candidate for is C01/C02.")
 
 CHECKS["C10"] = dict(
@@ -176,7 +186,8 @@ CHECKS["C10"] = dict(
          "the predicate as (actual, stored...) for typed and duck-typed matchers alike; a plain-value operand reaches "
          "operator== unconverted whenever it is comparable as it is (type witness over integral / floating / "
          "string / pointer pairs). This is the full predicate-level property; the user type's own operators and std::regex_search are opaque. "
-         "Composing a matcher from named (lvalue) operands never moves from them.",
+         "Composing a matcher from named (lvalue) operands never moves from them. "
+         "The dereferencing matcher's table is also decided for a nullable user pointer type that is not is_null_comparable (helpers the guard is factored into are interpreted from their bodies).",
     design_ref="DESIGN.md section 4, C10", note="Nesting follows from compositionality: every combinator's table is "
     "over the results of its operands' matches().")
 CHECKS["C13"] = dict(
@@ -201,7 +212,8 @@ CHECKS["C09"] = dict(
          "types are pairwise distinct and opaque every permutation, off-by-one or copy fails to compile, so the "
          "witness holds for all argument values. The tuple is built in place from the forwarded parameters in order; "
          "plain clause macros capture [=], LR_ ones [&]. Enumerated space is exhaustive. "
-         "The C++11 macro API (corpus/core11.cpp parsed at -std=c++11) is subject to the same capture rule.",
+         "The C++11 macro API (corpus/core11.cpp parsed at -std=c++11) is subject to the same capture rule. "
+         "Copy-trap witness: a type whose copy operations do not compile when used is passed by rvalue and by value through the parameter tuple, _N, WITH, SIDE_EFFECT and RETURN(std::move(_N)); a control that must copy is rejected.",
     design_ref="DESIGN.md section 4, C09", note="Compiler front ends are the oracle.")
 CHECKS["C17"] = dict(
     technique="who-may-call on the trace sink, structural checks of the dispatch function's agent (construction "
@@ -212,7 +224,9 @@ CHECKS["C17"] = dict(
          "tracer_obj() and the candidate's location and text, records all parameters before the actions, the return "
          "value or the exception (what() before unknown; the actions and the return handler run lexically inside the try block whose catch-all records it), and owns its record (no shared state across nested calls); "
          "tracers save and restore their predecessor and cannot be copied; only set_tracer writes the current tracer. " 
-         "The current-tracer object handed out by its accessor has static storage duration and is not thread_local.",
+         "The current-tracer object handed out by its accessor has static storage duration and is not thread_local. "
+         "In every library function the dispatch function's exception handlers call, each deliberate raise (throw;, the standard rethrow helpers) lies lexically inside a try block with a catch-all, so recording an exception cannot replace it on its way to the caller. "
+         "Where the agent prints its result parameter no move / forward of that parameter has happened on any path (the record shows the returned value, not a moved-from object).",
     design_ref="DESIGN.md section 4, C17", note="Not decided: text layout; non-nested tracer lifetimes (C14 finding).")
 CHECKS["C18"] = dict(
     technique="edge dominance of the null guard in every print() instantiation, insertion census in structural "
@@ -224,7 +238,8 @@ CHECKS["C18"] = dict(
          "flags / fill with 0 / dec|left / ' ' and restores each; every direct insertion of a leaf or of hex-dump "
          "bytes is dominated by a live sentry; opaque values are dumped as sizeof(T) bytes from their address: the byte walk covers exactly [begin, begin+size) once each in address order (span + for_each / range-for, or a counted index loop), every byte is read as unsigned char and reaches a numeric inserter only through types that represent 0..255; "
          "dispatch traits hold over the listed type family. " 
-         "What a collection printer hands to print() for each element has the collection's element type (no array-to-pointer decay, no conversion), so nested collections recurse into the collection printer.",
+         "What a collection printer hands to print() for each element has the collection's element type (no array-to-pointer decay, no conversion), so nested collections recurse into the collection printer. "
+         "Hex-dump line breaks: both newline guards are interpreted for sizes 1..40 - after the header exactly when the object is larger than 8 bytes, after byte k exactly when k mod 16 == 15.",
     design_ref="DESIGN.md section 4, C18", note="Not decided: hex-dump digits and line breaks for every size.")
 
 CHECKS["C14"] = dict(
@@ -241,7 +256,8 @@ CHECKS["C14"] = dict(
          "(objects with static storage lock it from their destructors). Three borrows violate "
          "their rule on the pinned tree and are recorded as known findings (sequence handle -> sequence object, tracer "
          "-> previous tracer, handler coroutine's parameter reference). "
-         "A sequence's destructor leaves its borrowing list of handles empty whatever the handles' state; C14.f has one obligation per reference parameter of a library coroutine.",
+         "A sequence's destructor leaves its borrowing list of handles empty whatever the handles' state; C14.f has one obligation per reference parameter of a library coroutine. "
+         "Only the monitor writes a watched object's monitor slot (C13.a), so moving or assigning to the object leaves the monitor's back-reference valid.",
     design_ref="DESIGN.md section 4, C14",
     note="Decides the listed structural necessary conditions, not memory safety of every history as a whole.")
 CHECKS["C20"] = dict(
@@ -255,7 +271,8 @@ CHECKS["C20"] = dict(
          "every clause order; detection traits hold for eager/lazy tasks, operator co_await tasks and generators; all "
          "legal clause permutations compile and misuse is rejected with the documented text - on coroutine functions, and "
          "every coroutine clause on an ordinary function in every position relative to the ordinary clauses. "
-         "Reference parameters of the handler coroutine are decided one by one (the known finding concerns `params` only).",
+         "Reference parameters of the handler coroutine are decided one by one (the known finding concerns `params` only). "
+         "A handler instantiated for a coroutine type whose promise accepts co_yield (overloaded and templated yield_value included) has the yield loop.",
     design_ref="DESIGN.md section 4, C20",
     note="Suspension/resumption and where exceptions surface are language semantics; parameter lifetime across "
          "suspension is a known finding.")
